@@ -37,7 +37,11 @@ type Engine struct {
 	sentinels map[*ssa.Global]int
 	lemmas    []*Contract
 	axiomNames []string
+	fnVals     map[*ssa.Function]*ClosV
+	ifMeth     map[string]*types.Func
 }
+
+func (e *Engine) ifaceMethod(key string) *types.Func { return e.ifMeth[key] }
 
 func loadEngine(repo string, specDir string, patterns []string) (*Engine, error) {
 	e := &Engine{repo: repo, loopC: map[*ssa.Function]*loopInfo{}, sites: map[*ssa.Function]map[*ssa.CallCommon]int{},
@@ -388,6 +392,10 @@ func (e *Engine) bind() {
 				if it.Method(i).Name() == c.FnName {
 					c.Key = it.Method(i).FullName()
 					e.ifCon[c.Key] = c
+					if e.ifMeth == nil {
+						e.ifMeth = map[string]*types.Func{}
+					}
+					e.ifMeth[c.Key] = it.Method(i)
 					found = true
 					if it.Method(i).Type().(*types.Signature).Params().Len() != len(c.Params) {
 						e.db.Errors = append(e.db.Errors, fmt.Sprintf("%s:%d: arity mismatch for %s", c.File, c.Line, c.Key))
@@ -540,4 +548,19 @@ func (e *Engine) findPkgFrom(from *types.Package, name string) *types.Package {
 		return p.Types
 	}
 	return nil
+}
+
+// fnVal is the (unique) value of a package-level function used as a function value.
+func (e *Engine) fnVal(fn *ssa.Function) *ClosV {
+	e.mu.Lock()
+	defer e.mu.Unlock()
+	if e.fnVals == nil {
+		e.fnVals = map[*ssa.Function]*ClosV{}
+	}
+	if c, ok := e.fnVals[fn]; ok {
+		return c
+	}
+	c := &ClosV{Fn: fn}
+	e.fnVals[fn] = c
+	return c
 }
